@@ -100,6 +100,19 @@ impl Matcher {
         // Preprocess: sort and merge same-day transactions
         let transactions = self.preprocess(transactions);
 
+        // A split or unsplit ratio must be positive: a zero ratio would wipe out the
+        // holding and divide by zero in the 30-day look-ahead.
+        for tx in &transactions {
+            if let Operation::Split { ratio } | Operation::Unsplit { ratio } = &tx.operation
+                && *ratio <= Decimal::ZERO
+            {
+                return Err(CgtError::InvalidTransaction(format!(
+                    "{} on {}: split ratio must be positive (got {})",
+                    tx.ticker, tx.date, ratio
+                )));
+            }
+        }
+
         let cost_offsets = self.compute_cost_offsets(&transactions)?;
         let mut future_consumption: HashMap<usize, Decimal> = HashMap::new();
         let mut same_day_reservations: HashMap<(NaiveDate, String), Decimal> = HashMap::new();
